@@ -18,7 +18,7 @@ def a85_encode(data, rng=None, use_z=True, eod=True, ws=0.0, trailing=b''):
     out = bytearray()
     def sep():
         if rng is not None and ws and rng.random() < ws:
-            out.extend(rng.choice([b' ', b'\n', b'\r\n', b'\t', b'\x0c', b'  ']))
+            out.extend(rng.choice([b' ', b'\n', b'\r\n', b'\t', b'\x0c', b'  ', b'\x00']))   # ISO 32000-1 table 1
     for i in range(0, len(data), 4):
         g = data[i:i + 4]
         n = len(g)
